@@ -186,11 +186,31 @@ STRENGTHENED = {
     "C16-13": "damped scaling with a varying number of values; added before the first evaluation",
     "C19-13": "sensitivities left on the inputs before finite_difference is called; added before the first evaluation",
     "C19-14": "a network input consumed through a slice of a slice; added before the first evaluation",
+    # ---- round 8 (one seed per property)
+    "C06-14": "sparse matrices of one fixed structure (every position a stored entry, explicit zeros: same shape and nnz for every "
+              "zero pattern) in the update histories; added in round 8",
+    "C06-15": "the matrix handed over through the constructor argument LDAWrapper(solver, A=A) (matrices with decoupled dofs)",
+    "C08-15": "found by the concretised twin at once (csr constant with csc matrix type) but reported as exit 2: the twin replay took the "
+              "first obligation of each kind (a shape clause that still holds); the runner now replays ANY clause of the item first",
+    "C11-15": "history on one module: a symmetric matrix first, a general one afterwards in the same input signal (library "
+              "precondition of eigh as obligation)",
+    "C12-15": "the shared DomainDefinition must be unchanged after constructing / evaluating an element operator; energy items with "
+              "the operators constructed before the assembly module",
+    "C03-15": "caught by C05 (C03 has no history that leads a dense matrix to the LDL solver): every dense direct solver (LU, LDL, "
+              "Cholesky, QR) now has the clause 'update() leaves the caller's matrix unchanged'; the replay hands the matrix over "
+              "in column-major storage, the layout for which scipy honours overwrite_a",
+    "C07-15": "caught by C05 (the change is in CG.solve): concrete regression items (not solver verdicts) with a block whose columns "
+              "differ in norm by 1e6 and in convergence speed; clause: every column is solved relative to its OWN norm",
+    "C13-15": "the public table node_numbering reversed between two evaluations on one domain object (shape functions and "
+              "derivatives follow the live table)",
 }
 NOT_CAUGHT = {
+    "C02-15": "outside the claim: a complex-valued network (OUTSIDE of C02); the fault is in the RESPONSE of ConcatSignal (imaginary parts "
+              "dropped when the first input is real), and its sensitivities are the exact adjoint of that wrong response, so the new C01 "
+              "item (real vector followed by a complex one) does not see it either",
+    "C04-15": "outside the claim: the unused option dep_tol wired to the wrapper's residual tolerance (1e-7 -> 1e-5), same change as "
+              "C07-14: a statement about tolerances, the histories are decided with tolerance 0",
     "C02-14": "outside the claim: user-defined sensitivity objects with their own add_sensitivity() hook (listed in OUTSIDE of C02/C18)",
-    "C06-14": "not caught: needs scipy-sparse matrices inside LDAWrapper histories (same shape and nnz, a dof decoupled by explicitly "
-              "stored zeros in the first matrix only); the C06 histories use dense matrices",
     "C07-14": "outside the claim: the unused option dep_tol wired to the wrapper's residual tolerance (1e-7 -> 1e-5): a statement about "
               "tolerances, A x = b still holds to the looser one",
     "C09-14": "outside the claim: the kernel array is stored by reference and the CALLER changes it later (the library itself does not "
